@@ -145,7 +145,12 @@ struct KeySetUnit : Unit
       note("{reMax " + I(nm) + "}");
       set->reMax(nm);
       mutations++;
-      CKOP(set->max() >= nm, "reMax(auto-grow)", "max-too-small", "max()=" + I(set->max()) + " after reMax(" + I(nm) + ")") , false;
+      checks++;
+      if(set->max() < nm)
+      {
+         fail("reMax(auto-grow)", "max-too-small", "max()=" + I(set->max()) + " after reMax(" + I(nm) + ")");
+         return false;
+      }
       return verify("reMax(auto-grow)");
    }
    bool newKeyOk(const DataKey& k, int val)
@@ -496,6 +501,98 @@ inline bool spEq(const SVectorBase<R>& v, const SpModel& m, std::string* why)
    return true;
 }
 
+// SVSetBase::isConsistent() itself is not usable as a monitor: it rejects every set that holds an empty vector behind the
+// last nonzero (mem() > &last()) -- a state reached by plain add() calls.  Its components are reliable and are checked one by
+// one; the arena conditions are replaced by the containment / disjointness test on the capacity ranges below.
+template <class R>
+inline bool svsetMonitors(SVSetBase<R>& s, std::string* what, std::string* detail)
+{
+   typedef typename SVSetBase<R>::DLPSV PS;
+   if(!s.set.isConsistent())
+   {
+      *what = "isConsistent-false(ClassSet)";
+      *detail = "ClassSet::isConsistent() of the vector memory returned false";
+      return false;
+   }
+   if(!s.list.isConsistent())
+   {
+      *what = "isConsistent-false(IdList)";
+      *detail = "IdList::isConsistent() of the nonzero-order list returned false";
+      return false;
+   }
+   if(!s.SVSetBase<R>::SVSetBaseArray::isConsistent())
+   {
+      *what = "isConsistent-false(ClassArray)";
+      *detail = "ClassArray::isConsistent() of the nonzero memory returned false";
+      return false;
+   }
+   int cnt = 0;
+   for(PS* ps = s.list.first(); ps; ps = s.list.next(ps))
+   {
+      if(++cnt > s.num())
+      {
+         *what = "order-list-longer-than-num";
+         *detail = "the nonzero-order list has more elements than num()";
+         return false;
+      }
+   }
+   if(cnt != s.num())
+   {
+      *what = "order-list-length-differs";
+      *detail = "the nonzero-order list has " + I(cnt) + " elements, num()=" + I(s.num());
+      return false;
+   }
+   const Nonzero<R>* lo = s.SVSetBase<R>::SVSetBaseArray::get_const_ptr();
+   std::vector<std::pair<const Nonzero<R>*, int>> spans;
+   for(int i = 0; i < s.num(); i++)
+   {
+      const SVectorBase<R>& v = s[i];
+      if(!v.isConsistent())
+      {
+         *what = "isConsistent-false(SVector)";
+         *detail = "SVectorBase::isConsistent() of vector number " + I(i) + " returned false";
+         return false;
+      }
+      if(v.max() < v.size() || v.size() < 0)
+      {
+         *what = "vector-size-above-max";
+         *detail = "vector number " + I(i) + " has size " + I(v.size()) + " max " + I(v.max());
+         return false;
+      }
+      if(v.max() > 0) spans.push_back(std::make_pair((const Nonzero<R>*)v.mem(), v.max()));
+   }
+   std::sort(spans.begin(), spans.end());
+   for(size_t i = 0; i < spans.size(); i++)
+   {
+      if(!(spans[i].first >= lo && spans[i].first + spans[i].second <= lo + s.memSize()))
+      {
+         *what = "vector-memory-outside-nonzero-memory";
+         *detail = "the capacity range of a vector (max()=" + I(spans[i].second) + ") is not inside the used nonzero memory [0," + I(s.memSize()) + "): offset " + I((
+                     long long)(spans[i].first - lo));
+         return false;
+      }
+      if(i && spans[i - 1].first + spans[i - 1].second > spans[i].first)
+      {
+         *what = "vector-memory-overlaps";
+         *detail = "the capacity ranges of two vectors overlap in the nonzero memory";
+         return false;
+      }
+   }
+   return true;
+}
+
+// add2() writes through the vector right after its internal xtend(); if the probe found that xtend() of the last vector can
+// leave it pointing into freed memory, calls that would take that path are not executed in process (explicit xtend() operations
+// still are, and are judged by svsetMonitors before anything is written).
+template <class R>
+inline bool xtendHazard(SVSetBase<R>& s, SVectorBase<R>& v, int need)
+{
+   if(!hazards().xtendLastStale) return false;
+   if(v.max() >= need) return false;
+   if(static_cast<SVectorBase<R>*>(s.list.last()) != &v) return false;
+   return s.memSize() + (need - v.max()) > s.memMax();
+}
+
 template <class R>
 struct ValGen
 {
@@ -622,7 +719,16 @@ struct SVSetUnit : Unit
       VB(n == (int)model.size(), "num-differs", "num()=" + I(n) + " model=" + I(model.size()));
       VB(n <= s.max(), "num-above-max", "num()=" + I(n) + " max()=" + I(s.max()));
       VB(s.memSize() <= s.memMax() && s.memSize() >= 0, "memSize-above-memMax", "memSize()=" + I(s.memSize()) + " memMax()=" + I(s.memMax()));
-      std::vector<std::pair<const Nonzero<R>*, int>> spans;
+      {
+         // white-box monitors first: they keep the comparison below from reading through stale pointers
+         std::string what, detail;
+         checks++;
+         if(!svsetMonitors(s, &what, &detail))
+         {
+            fail(on, what, detail);
+            return false;
+         }
+      }
       for(int i = 0; i < n; i++)
       {
          DataKey k = s.key(i);
@@ -635,19 +741,8 @@ struct SVSetUnit : Unit
          VB(s.number(&v) == i && s.key(&v).idx == k.idx && s.has(&v), "lookup-by-pointer-differs", "number(&set[" + I(i) + "])=" + I(s.number(&v)));
          std::string why;
          VB(spEq(v, it->second, &why), "vector-content-differs", "vector with key " + I(k.idx) + " (number " + I(i) + "): " + why);
-         if(v.size() > 0) spans.push_back(std::make_pair((const Nonzero<R>*)v.mem(), v.size()));
       }
       VB(!s.has(n) && !s.has(-1), "has(number)-true-out-of-range", "has(num()) or has(-1) true");
-      // the used parts of the vectors must lie inside the nonzero memory and must not overlap
-      std::sort(spans.begin(), spans.end());
-      const Nonzero<R>* lo = s.SVSetBase<R>::SVSetBaseArray::get_const_ptr();
-      for(size_t i = 0; i < spans.size(); i++)
-      {
-         VB(spans[i].first >= lo && spans[i].first + spans[i].second <= lo + s.memSize(), "vector-outside-nonzero-memory",
-            "a vector's nonzeros lie outside [0,memSize())");
-         if(i) VB(spans[i - 1].first + spans[i - 1].second <= spans[i].first, "vectors-overlap", "the nonzeros of two vectors overlap in the nonzero memory");
-      }
-      VB(s.isConsistent(), "isConsistent-false", "isConsistent() returned false");
       return true;
 #undef VB
    }
@@ -764,14 +859,31 @@ struct SVSetUnit : Unit
       }
    }
    template <class RR>
-   void buildFromModel(SVSetBase<RR>& dst, std::vector<SpModel>& order)
+   void buildFresh(SVSetBase<RR>& dst, std::vector<SpModel>& order)      // values convertible exactly in both directions
    {
-      for(auto& kv : model)
+      int cnt = rnd ? g.range(0, 6) : (int)(g.next() % 4);
+      for(int c = 0; c < cnt; c++)
       {
+         SpModel m;
+         int nz = (int)(g.next() % 4);
+         while((int)m.size() < nz) m[g.range(0, IDXRANGE - 1)] = ValGen<double>::val(g);
          DSVectorBase<RR> d;
-         fillDSV(d, kv.second, rnd ? &g : nullptr);
+         fillDSV(d, m, rnd ? &g : nullptr);
          dst.add(d);
-         order.push_back(kv.second);
+         order.push_back(m);
+      }
+      if(cnt >= 2 && g.chance(0.5))
+      {
+         int r = g.range(0, dst.num() - 1);
+         SpModel m;
+         for(int j = 0; j < dst[r].size(); j++) m[dst[r].index(j)] = RT<RR>::get(dst[r].value(j));
+         for(size_t j = 0; j < order.size(); j++)
+            if(order[j] == m)
+            {
+               order.erase(order.begin() + j);
+               break;
+            }
+         dst.remove(r);
       }
    }
    void step(int o) override
@@ -820,13 +932,13 @@ struct SVSetUnit : Unit
          if(n == 0 && o == O_addManyKeys && hazards().svsetAddKeys0) n = 1;
          std::vector<SpModel> ms;
          std::vector<DSVectorBase<R>> ds(n + 1);
-         std::vector<SVectorBase<R>> svs(n + 1);
+         std::vector<SVectorBase<R>> svs;
          for(int i = 0; i < n; i++)
          {
             ms.push_back(rndVec());
             fillDSV(ds[i], ms.back(), rnd ? &g : nullptr);
          }
-         for(int i = 0; i <= n; i++) svs[i].SVectorBase<R>::operator=(std::move(static_cast<const SVectorBase<R>&>(ds[i])));   // shallow views
+         for(int i = 0; i <= n; i++) svs.push_back(SVectorBase<R>(static_cast<const SVectorBase<R>&>(ds[i])));   // shallow views
          note("{n=" + I(n) + "}");
          mutations++;
          if(o == O_addMany)
@@ -950,6 +1062,7 @@ struct SVSetUnit : Unit
          idx.push_back(0);
          vals.push_back(RT<R>::make(Q(77)));
          note("{" + I(i) + "/" + I(n) + " +" + I(cnt) + "}");
+         if(xtendHazard(s, s[k], s[k].size() + cnt)) return skip();
          if(o == O_add2one) s.add2(s[k], idx[0], vals[0]);
          else s.add2(s[k], cnt, idx.data(), vals.data());
          mutations++;
@@ -1055,10 +1168,11 @@ struct SVSetUnit : Unit
       }
       else if(o == O_assignCross || o == O_copyCross)
       {
-         // a set of the other scalar type with the same vectors (exactly convertible values), then convert
+         // a set of the other scalar type (exactly convertible values) replaces the content
          SVSetBase<R2> src(rnd ? g.range(1, 4) : 2, rnd ? g.range(1, 8) : 2);
          std::vector<SpModel> order;
-         buildFromModel(src, order);
+         buildFresh(src, order);
+         note("{n=" + I(src.num()) + "}");
          SET* t;
          if(o == O_copyCross) t = new SET(src);
          else
@@ -1391,6 +1505,15 @@ struct LPSetUnit : Unit
       VB(n <= s.max(), "num-above-max", "num()=" + I(n) + " max()=" + I(s.max()));
       VB(TR::sideDim(s) == n, "side-vector-dimension-differs", "dimension of the side vectors is " + I(TR::sideDim(s)) + ", num()=" + I(n));
       VB(s.memSize() <= s.memMax(), "memSize-above-memMax", "memSize()=" + I(s.memSize()) + " memMax()=" + I(s.memMax()));
+      {
+         std::string what, detail;
+         checks++;
+         if(!svsetMonitors(static_cast<SVSetBase<R>&>(s), &what, &detail))
+         {
+            fail(on, what, detail);
+            return false;
+         }
+      }
       for(int i = 0; i < n; i++)
       {
          DataKey k = s.key(i);
@@ -1410,7 +1533,6 @@ struct LPSetUnit : Unit
       // white-box secondary monitor: the scaling-exponent array is indexed by number in remove()/add(set)
       VB(s.scaleExp.size() >= n, "scaleExp-shorter-than-num", "scaleExp.size()=" + I(s.scaleExp.size()) + " < num()=" + I(
             n) + " (remove(i) reads and writes scaleExp[i], scaleExp[num()])");
-      VB(s.isConsistent(), "isConsistent-false", "isConsistent() returned false");
       return true;
 #undef VB
    }
@@ -1601,6 +1723,7 @@ struct LPSetUnit : Unit
          idx.push_back(0);
          vals.push_back(RT<R>::make(Q(77)));
          note("{" + I(i) + "/" + I(n) + " +" + I(cnt) + "}");
+         if(xtendHazard(static_cast<SVSetBase<R>&>(s), TR::vecw(s, k), TR::vec(s, k).size() + cnt)) return skip();
          if(o == O_add2key) s.add2(k, cnt, idx.data(), vals.data());
          else s.add2(i, cnt, idx.data(), vals.data());
          mutations++;
